@@ -1,4 +1,5 @@
 import XixiKV.Proofs.HistoryStatDur
+import XixiKV.Proofs.HistoryStatExact
 import XixiKV.Properties.C13
 import XixiKV.Properties.C17
 /-!
@@ -23,6 +24,11 @@ error), restarts under any valid configuration (scan path or ADOPTION of a finis
   the records the live keys point to = the bytes those records occupy; and for every restart of the
   history what `DiskSize` / `Reclaimable` are afterwards (`RestartCounters`: the replay's counters;
   after the adopting restart both plus the excess `S` of `C06_adopt`);
+* `C17_history_counters_exact` — the two counters ONE BY ONE: at every point without a live batch
+  `DiskSize` and `Reclaimable` are exactly what a scan-path restart would compute from the current
+  files, plus a common excess `E` that is `0` from the start, changes only at restarts, and is the `S`
+  of `C06_adopt` from an adopting restart to the next restart (the live engine never drifts);
+  `C17_history_marker` — which restarts adopt (follows the outcomes of the `Merge`s);
 * `C17_history_merge_admitted` — Go's `uint64(totalSize − reclaimSize)` (`mergeNeed`) never wraps and
   equals `liveBytes`: `mergeCheck` refuses a merge for lack of space only if the LIVE data do not fit;
 * `C17_history_limit`      — every data file, and every file of the merge directory (the rewritten
@@ -198,6 +204,130 @@ theorem C17_history_stat (dir : String) (cfg : Cfg) (hcfg : cfg.Valid) (h : List
       (stat (stateAt dir cfg h n) db).disk - (stat (stateAt dir cfg h n) db).reclaim = liveBytes db.index := by
   obtain ⟨db, g, d, hst⟩ := (C17_history_counters dir cfg hcfg h hok hwf hrunok).1 n hq
   exact ⟨db, d, hst.open_, hst.world, hst.keys, hst.nfiles.1, hst.le, hst.diff⟩
+
+/-! ## 1b. between restarts the two counters are EXACT (up to the excess of the last adopting restart) -/
+
+/-- the side conditions of the call made at position `n` -/
+theorem side_at (dir : String) (cfg : Cfg) (hcfg : cfg.Valid) (h : List HOp)
+    (hok : ∀ op ∈ h, HOpOK dir op) (hwf : WF false h = true)
+    (hrunok : RunOK dir (openDB St.init dir cfg).1 h) (n : Nat) (hn : n < h.length) :
+    HOpOK dir h[n] ∧ (isLive (specAt h n).slot = true → batchCall h[n] = true) ∧ StepOK dir (stateAt dir cfg h n) h[n] := by
+  obtain ⟨_, hi0⟩ := HInv0_fresh dir cfg hcfg
+  exact steps dir (fun _ => True)
+    (fun s σ op => HOpOK dir op ∧ (isLive σ.slot = true → batchCall op = true) ∧ StepOK dir s op)
+    (fun _ _ _ _ hop' _ hwf' hst' => ⟨hop', hwf', hst'⟩)
+    h _ ⟨specEmpty, .none⟩ hi0.toQ (fun op hop => ⟨hok op hop, trivial⟩) hwf hrunok n hn
+
+/-- at point `n` index and counters are the replay's of the current files, the counters plus `E`:
+    `Stat().DiskSize = (what a restart would compute from the data files) + E`, likewise `Reclaimable` -/
+def ExcessAt (dir : String) (cfg : Cfg) (h : List HOp) (n E : Nat) : Prop :=
+  ∃ db g, (stateAt dir cfg h n).db = some db ∧ Files (stateAt dir cfg h n) db g ∧
+    db.index = (replayLog (logOf g)).index ∧
+    db.total = (replayLog (logOf g)).total + E ∧ db.reclaim = (replayLog (logOf g)).reclaim + E
+
+theorem ExcessAt_unique {dir : String} {cfg : Cfg} {h : List HOp} {n E E' : Nat}
+    (h1 : ExcessAt dir cfg h n E) (h2 : ExcessAt dir cfg h n E') : E = E' := by
+  obtain ⟨db, g, hs, hf, _, ht, _⟩ := h1
+  obtain ⟨db', g', hs', hf', _, ht', _⟩ := h2
+  rw [hs] at hs'; cases hs'
+  have : g = g' := PolicyP.Files_unique hf hf'
+  subst this
+  omega
+
+/-- the accounting invariant holds, with some excess, at every point -/
+theorem acc_at (dir : String) (cfg : Cfg) (hcfg : cfg.Valid) (h : List HOp)
+    (hok : ∀ op ∈ h, HOpOK dir op) (hwf : WF false h = true)
+    (hrunok : RunOK dir (openDB St.init dir cfg).1 h) (n : Nat) : ∃ E, Acc E (stateAt dir cfg h n) := by
+  obtain ⟨_, hi0⟩ := HInv0_fresh dir cfg hcfg
+  exact (points dir (fun _ => True) (fun (c : Unit) _ => c) (fun _ s _ => ∃ E, Acc E s)
+    (by
+      intro _ s σ op hi ⟨E, ha⟩ hop _ hwf' hst
+      cases op with
+      | restart cfg' =>
+        obtain ⟨dead, hQ⟩ := quiet_of_wf hi hwf' rfl
+        exact Acc_restart hQ cfg' hop hst
+      | a o => exact ⟨E, Acc_step dir E s σ _ hi ha hop hwf' hst (fun _ e => by cases e)⟩
+      | merge o => exact ⟨E, Acc_step dir E s σ _ hi ha hop hwf' hst (fun _ e => by cases e)⟩
+      | backup d => exact ⟨E, Acc_step dir E s σ _ hi ha hop hwf' hst (fun _ e => by cases e)⟩)
+    h _ ⟨specEmpty, .none⟩ () hi0.toQ ⟨0, Acc_fresh dir cfg hcfg⟩ (fun op hop => ⟨hok op hop, trivial⟩) hwf hrunok n).2
+
+/-- … and with the SAME excess as long as no restart occurs -/
+theorem acc_range (dir : String) (cfg : Cfg) (hcfg : cfg.Valid) (h : List HOp)
+    (hok : ∀ op ∈ h, HOpOK dir op) (hwf : WF false h = true)
+    (hrunok : RunOK dir (openDB St.init dir cfg).1 h) (E : Nat) : ∀ (k n : Nat), n + k ≤ h.length →
+    (∀ i, n ≤ i → i < n + k → ∀ cfg', h[i]? ≠ some (.restart cfg')) →
+    Acc E (stateAt dir cfg h n) → Acc E (stateAt dir cfg h (n + k)) := by
+  intro k
+  induction k with
+  | zero => intro n _ _ ha; exact ha
+  | succ k ih =>
+    intro n hle hnr ha
+    have hn : n < h.length := by omega
+    obtain ⟨hop, hwf', hst⟩ := side_at dir cfg hcfg h hok hwf hrunok n hn
+    have hstep := Acc_step dir E _ _ h[n] (HInv_at dir cfg hcfg h hok hwf hrunok n) ha hop hwf' hst
+      (by
+        intro cfg' e
+        have := hnr n (Nat.le_refl _) (by omega) cfg'
+        rw [List.getElem?_eq_getElem hn, e] at this
+        exact this rfl)
+    rw [← stateAt_succ dir cfg h n hn] at hstep
+    have := ih (n + 1) (by omega) (fun i h1 h2 => hnr i (by omega) (by omega)) hstep
+    rw [show n + (k + 1) = n + 1 + k by omega]
+    exact this
+
+theorem excess_of_acc (dir : String) (cfg : Cfg) (hcfg : cfg.Valid) (h : List HOp)
+    (hok : ∀ op ∈ h, HOpOK dir op) (hwf : WF false h = true)
+    (hrunok : RunOK dir (openDB St.init dir cfg).1 h) (n : Nat) (hq : isLive (specAt h n).slot = false)
+    {E : Nat} (ha : Acc E (stateAt dir cfg h n)) : ExcessAt dir cfg h n E := by
+  obtain ⟨dead, hQ⟩ := HInv_quiet (HInv_at dir cfg hcfg h hok hwf hrunok n) hq
+  obtain ⟨db, g, d, hst⟩ := HInvQ.statAt hQ
+  obtain ⟨h1, h2, h3⟩ := ha.quiet hst.open_ hst.files (QuietDB_of_HInvQ hQ hst.open_)
+  exact ⟨db, g, hst.open_, hst.files, h1, h2, h3⟩
+
+/-- **C17 for histories, the counters one by one.**  `StatAt` relates the DIFFERENCE of the counters to
+    the live records.  Separately they are exact too: at every point `n` without a live batch
+
+    (a) there is exactly one `E` with `DiskSize = T + E` and `Reclaimable = R + E`, where `T`, `R` are
+        the counters a scan-path restart would compute from the current data files
+        (`replayLog (logOf g)`), and the index is that replay's index (`ExcessAt`);
+    (b) `E = 0` at every such point before the first restart;
+    (c) `E` does not change as long as no restart occurs — whatever plain calls, batches (with
+        intermediate flushes and rotations), `Merge`s and `Backup`s lie between `n` and `n'`.
+
+    Together with `C17_history_counters` (b) (`RestartCounters`: right after a restart `E = 0` on the
+    scan path and `E = S` after an adoption): `Stat` reports exactly what a restart would compute,
+    plus — from an adopting restart until the next restart — the constant `S`.  The live engine never
+    drifts. -/
+theorem C17_history_counters_exact (dir : String) (cfg : Cfg) (hcfg : cfg.Valid) (h : List HOp)
+    (hok : ∀ op ∈ h, HOpOK dir op) (hwf : WF false h = true)
+    (hrunok : RunOK dir (openDB St.init dir cfg).1 h) :
+    (∀ n, isLive (specAt h n).slot = false →
+      ∃ E, ExcessAt dir cfg h n E ∧ ∀ E', ExcessAt dir cfg h n E' → E' = E) ∧
+    (∀ n, n ≤ h.length → isLive (specAt h n).slot = false →
+      (∀ i, i < n → ∀ cfg', h[i]? ≠ some (.restart cfg')) → ExcessAt dir cfg h n 0) ∧
+    (∀ n n' E, n ≤ n' → n' ≤ h.length → isLive (specAt h n).slot = false → isLive (specAt h n').slot = false →
+      (∀ i, n ≤ i → i < n' → ∀ cfg', h[i]? ≠ some (.restart cfg')) →
+      ExcessAt dir cfg h n E → ExcessAt dir cfg h n' E) := by
+  refine ⟨?_, ?_, ?_⟩
+  · intro n hq
+    obtain ⟨E, ha⟩ := acc_at dir cfg hcfg h hok hwf hrunok n
+    have := excess_of_acc dir cfg hcfg h hok hwf hrunok n hq ha
+    exact ⟨E, this, fun E' h' => ExcessAt_unique h' this⟩
+  · intro n hle hq hnr
+    have h0 : Acc 0 (stateAt dir cfg h 0) := Acc_fresh dir cfg hcfg
+    have := acc_range dir cfg hcfg h hok hwf hrunok 0 n 0 (by omega)
+      (fun i _ h2 => hnr i (by omega)) h0
+    rw [Nat.zero_add] at this
+    exact excess_of_acc dir cfg hcfg h hok hwf hrunok n hq this
+  · intro n n' E hle hle' hq hq' hnr hE
+    obtain ⟨E0, ha⟩ := acc_at dir cfg hcfg h hok hwf hrunok n
+    have h0 := excess_of_acc dir cfg hcfg h hok hwf hrunok n hq ha
+    have : E = E0 := ExcessAt_unique hE h0
+    subst this
+    have := acc_range dir cfg hcfg h hok hwf hrunok E (n' - n) n (by omega)
+      (fun i h1 h2 => hnr i h1 (by omega)) ha
+    rw [show n + (n' - n) = n' by omega] at this
+    exact excess_of_acc dir cfg hcfg h hok hwf hrunok n' hq' this
 
 /-! ## 2. `mergeCheck` never sees drifted counters -/
 
@@ -502,6 +632,20 @@ example : RestartCounters "d" (stateAt "d" cfg0 demoH 26) (stateAt "d" cfg0 demo
   ⟨demo_counters.2 26 (by decide) cfg1 rfl, demo_counters.2 34 (by decide) cfg2 rfl,
    demo_counters.2 39 (by decide) cfg0 rfl⟩
 
+private def isRestart : HOp → Bool
+  | .restart _ => true
+  | _ => false
+
+/-- `C17_history_counters_exact` on `demoH`: excess 0 up to the adopting restart (position 26) -/
+theorem demo_exact : ∀ n, n ≤ 26 → isLive (specAt demoH n).slot = false → ExcessAt "d" cfg0 demoH n 0 := by
+  intro n hn hq
+  refine (C17_history_counters_exact "d" cfg0 (by decide) demoH (fun op h => (demo_ok op h).1) demo_wf demo_runOK).2.1
+    n (by have : demoH.length = 41 := rfl; omega) hq ?_
+  intro i hi cfg' e
+  have hi' : i < 26 := by omega
+  have key : ∀ j, j < 26 → (demoH[j]?.map isRestart) ≠ some true := by decide
+  exact key i hi' (by rw [e]; rfl)
+
 /-- `C17_history_merge_admitted` after the adopting restart (where `Reclaimable` over-reports) -/
 theorem demo_merge_admitted : ∃ db, (stateAt "d" cfg0 demoH 27).db = some db ∧
     (db.total < 2 ^ 63 → (mergeNeed db.total db.reclaim).toNat = liveBytes db.index) := by
@@ -548,6 +692,20 @@ private def quietPoints : List Nat := (List.range 42).filter (fun n => !isLive (
 #guard [13, 14, 26, 27, 34, 35, 39, 40].map statRow =
   [some (4, 5, 51, 103, 52), some (4, 6, 51, 103, 52), some (5, 9, 127, 192, 65), some (5, 5, 128, 193, 65),
    some (5, 5, 128, 193, 65), some (5, 5, 76, 141, 65), some (5, 6, 76, 141, 65), some (5, 2, 65, 130, 65)]
+-- EXACTNESS: at every quiet point both counters are what a scan of the current files computes (`loadIndex` = the
+-- scan path of `Open`) plus the same excess E; E = 0 up to the adopting restart, 52 from it to the next restart,
+-- 0 after the second restart (and through the second merge), 65 after the third (adopting) restart
+private def excessRow (n : Nat) : Option (Nat × Nat) :=
+  let s := stateAt "d" cfg0 demoH n
+  match s.db, s.world.get "d" with
+  | some db, some d =>
+    match loadIndex { index := [], reclaim := 0, total := 0, pending := [] } 0 d.data with
+    | some (R, _) => if R.index.map (·.2) == db.index.map (·.2) then some (db.total - R.total, db.reclaim - R.reclaim) else none
+    | none => none
+  | _, _ => none
+#guard quietPoints.map excessRow =
+  (List.replicate 14 (some (0, 0))) ++ (List.replicate 8 (some (52, 52))) ++ (List.replicate 5 (some (0, 0))) ++
+  [some (65, 65), some (65, 65)]
 -- `mergeCheck`'s quantity after the adopting restart: 193 − 128 = 65 = liveBytes, no wrap; a wrapped example
 #guard (mergeNeed 193 128).toNat = 65 && mergeRefusedNoSpace 193 128 66 == false && mergeRefusedNoSpace 193 128 65
 #guard (mergeNeed 128 193).toNat = 2 ^ 64 - 65      -- what drifted counters (reclaim > total) WOULD give
